@@ -5,7 +5,7 @@
 From Coq Require Import ZArith List Bool Lia Znumtheory.
 From PySnark.Base Require Import FieldZ Bits.
 From PySnark.Model Require Import Lc Sym Good Gadgets Api Prog.
-From PySnark.Proofs Require Import Meta Frame Wp WpBase GadgetsOK.
+From PySnark.Proofs Require Import Meta Frame Wp WpBase GadgetsOK ApiOK ProgOK.
 Import ListNotations.
 Open Scope Z_scope.
 
@@ -146,4 +146,41 @@ Proof.
   - intros nm Hn. apply store_all_other. rewrite Names. exact Hn.
 Qed.
 End Merge.
+
+(* ---- BranchContext.exit as a whole for an _if block whose variables all existed before it: restore the guard, then merge ---- *)
+Hypothesis F : field_ok p.
+Lemma filter_all_in_bak (bak : bdict) : forall (new : list (nat * slc)), Forall (fun nt => exists f, dget bak (fst nt) = Some f) new ->
+  filter (fun jv : nat * pyval => negb (dmem bak (fst jv))) (map (fun nt => (fst nt, PLC (snd nt))) new) = [].
+Proof.
+  induction new as [|[nm t] new IH]; intros H; [reflexivity|]. inversion H as [|? ? [f Hf] H']; subst. cbn [map filter fst snd] in *.
+  unfold dmem. rewrite Hf. cbn [negb]. apply IH. exact H'.
+Qed.
+Theorem ctx_exit_value (cx : bctx (p:=p)) o cb (new : list (nat * slc)) s sg (Q : bdict * bdict -> gst -> store -> Prop) :
+  Inv s sg -> tvalid ins ig (borig cx) s sg -> bnodef cx = None -> bk cx = KIf -> bcond cx = PBool o cb -> sc s cb ->
+  NoDup (map fst new) -> Forall (pre (bbak cx) s sg) new ->
+  (forall r s' sg', Inv s' sg' -> ext sg sg' ->
+     (forall nm t, In (nm, t) new -> exists x f, dget r nm = Some (PLC x) /\ dget (bbak cx) nm = Some (PLC f) /\ sc s' x /\
+        ve sg' (sval x) = sel (ve sg (sval cb)) (ve sg (sval t)) (ve sg (sval f))) ->
+     Q (r, []) s' sg') ->
+  wp (ctx_exit c cx (map (fun nt => (fst nt, PLC (snd nt))) new)) s sg Q.
+Proof.
+  intros I V Hn Hk Hc Scb Hd Hp HQ. unfold ctx_exit. apply wp_bind.
+  apply (restore_guard_TOK ins ig (borig cx) s sg I V). intros _ s1 sg1 I1 E1 _.
+  rewrite Hn, Hc, Hk.
+  assert (Hall : Forall (fun nt : nat * slc => exists f, dget (bbak cx) (fst nt) = Some f) new).
+  { eapply Forall_impl; [|exact Hp]. intros nt (_ & f & Hf & _). exists (PLC f). exact Hf. }
+  rewrite (filter_all_in_bak (bbak cx) new Hall). cbn [ret bind fold_left wp].
+  apply wp_bind.
+  assert (C1 : cnt s sg) by exact (proj1 I). assert (C2 : cnt s1 sg1) by exact (proj1 I1).
+  destruct (cnt_mono _ _ _ _ C1 C2 E1) as [M1 M2].
+  assert (Scb1 : sc s1 cb) by (unfold sc in *; eapply vscopedb_mono; eauto).
+  assert (Hp1 : Forall (pre (bbak cx) s1 sg1) new).
+  { eapply Forall_impl; [|exact Hp]. intros nt (St & f & Hf & Sf & Hid). split; [unfold sc in *; eapply vscopedb_mono; eauto|].
+    exists f. split; [exact Hf|]. split; [unfold sc in *; eapply vscopedb_mono; eauto|]. intros Es.
+    rewrite (ve_ext ins ig _ _ _ _ C1 E1 St), (ve_ext ins ig _ _ _ _ C1 E1 Sf). exact (Hid Es). }
+  apply (merge_bak_lookup o cb (bbak cx) s1 sg1 I1 Scb1 new _ _ Hd Hp1). intros r s2 sg2 I2 E2 Hl _. cbn [ret wp].
+  apply HQ; [exact I2|eapply ext_trans; eauto|]. intros nm t Hin. destruct (Hl nm t Hin) as (x & f & A & B & Sx & Vx). exists x, f. repeat split; try assumption.
+  rewrite Vx. rewrite Forall_forall in Hp. destruct (Hp (nm, t) Hin) as (St & f' & Hf' & Sf' & _). cbn [fst snd] in *. rewrite B in Hf'. inversion Hf'; subst f'.
+  rewrite (ve_ext ins ig _ _ _ _ C1 E1 St), (ve_ext ins ig _ _ _ _ C1 E1 Sf'), (ve_ext ins ig _ _ _ _ C1 E1 Scb). reflexivity.
+Qed.
 End MV.
